@@ -134,6 +134,7 @@ func runC02(r *engine.Run) {
 	}
 	r.Rule = "E1, three complete products. A (shapes): MType{2..5} x 16 FCtrl flag combinations x FOptsLen 0..15 x FOpts form{opaque,commands} x FPort{absent,0,1,255} x FRMPayload length alphabet (quick: 19 lengths straddling CMAC block boundaries; thorough: 0..248) x MAC version{1.0,1.1}, one parameter tuple. B (parameters) on 6 shapes x 2 directions: version x ACK x ConfFCnt(5) x txDR(3) x txCh(3) x FCnt(5) x DevAddr(3) x FNwkSIntKey(3) x SNwkSIntKey(3) with all 32 carried-MIC bit flips. C (bit walks): every single bit of FCnt, ConfFCnt, DevAddr (32 each), both keys (128 each), txDR, txCh (8 each) and every bit of the serialised frame on 2 shapes x 2 directions x 2 versions x ACK. Oracle: independent B0/B1 + RFC 4493 CMAC (mc/spec/crypto.go). Non-trivial: Set succeeded and the MIC was compared with the specification value; distinct by construction."
 	cryptoHistory(r)
+	manyKeysMIC(r)
 	r.Assume("AES is crypto/aes (trusted); CMAC is re-implemented from RFC 4493 and self-tested on the RFC vectors at start-up")
 	r.Assume("keys/counters/addresses: small distinguishing alphabets plus complete single-bit walks; a mutant special-casing one particular 32-bit or 128-bit value is outside the bound")
 	r.Assume("frames whose serialisation exceeds 255 bytes (not transmittable) are executed but not judged")
@@ -296,6 +297,53 @@ func runC02(r *engine.Run) {
 		f, p := mk(s, ch[2] == 1, ch[4] == 1, devAddr, fCnt)
 		c02Check(c, "C/"+walks[wi].name, f, p, m, []int{bit % 32}, false)
 		c.Outcome("C/" + walks[wi].name)
+	})
+
+	// ---- C3: the MIC of a frame that differs in one bit of the 32-bit FCnt is not this frame's MIC:
+	// Validate rejects it (unless the specification gives the same MIC) and leaves the frame as it is
+	r.PartDims("C/fcnt-neighbour-mic", []string{"fcnt bit:32", "shape:6", "direction:2", "version:2", "base fcnt:3", "frame{constructed,decoded}"}, 32*uint64(len(shapes))*2*2*3*2, func(c *engine.Case) {
+		i := c.Index
+		bit := uint(i % 32)
+		i /= 32
+		s := shapes[i%uint64(len(shapes))]
+		i /= uint64(len(shapes))
+		uplink := i%2 == 1
+		i /= 2
+		m := base
+		m.v11 = i%2 == 1
+		i /= 2
+		fcnt := []uint32{5, 0x0001FFFF, 0xFFFF0000}[i%3]
+		decoded := i/3 == 1
+		c.Eval()
+		f, p := mk(s, uplink, true, 0x01020304, fcnt)
+		g, _ := mk(s, uplink, true, 0x01020304, fcnt^(1<<bit))
+		mine, _ := specMIC(f, m)
+		other, _ := specMIC(g, m)
+		if decoded {
+			p.MIC = lorawan.MIC(other)
+			wire, err := p.MarshalBinary()
+			if err != nil {
+				c.Fail("C/fcnt-neighbour/marshal-error", err.Error(), nil)
+				return
+			}
+			var q lorawan.PHYPayload
+			if err := q.UnmarshalBinary(wire); err != nil {
+				c.Fail("C/fcnt-neighbour/decode-error", err.Error(), nil)
+				return
+			}
+			q.MACPayload.(*lorawan.MACPayload).FHDR.FCnt = fcnt
+			p = &q
+		}
+		p.MIC = lorawan.MIC(other)
+		before := deepPrint(p)
+		ok, err := libValidateMIC(p, uplink, m)
+		c.NonTrivial()
+		if err != nil || ok != (other == mine) {
+			c.Fail("C/fcnt-neighbour-mic", fmt.Sprintf("frame with FCnt %#x carrying the specification MIC %x of FCnt %#x (its own is %x): Validate=%v err=%v; v11=%v uplink=%v decoded=%v", fcnt, other[:], fcnt^(1<<bit), mine[:], ok, err, m.v11, uplink, decoded), nil)
+		}
+		if after := deepPrint(p); after != before {
+			c.Fail("C/fcnt-neighbour/frame-modified", fmt.Sprintf("Validate changed the frame: before %s after %s", before, after), nil)
+		}
 	})
 
 	// ---- D: the same frame held in other value forms (FRMPayload / FOpts as several items, empty
